@@ -64,6 +64,15 @@ def pairing(ctx, rule):
 def rev_iter(ctx, rule):
     b = ctx.body(REV)
     fn = b.path
+    # the walk ends only when the tokens are used up: a token whose line or text cannot be read is still yielded (without
+    # text), it does not end the walk
+    for sh, site, _e in q.def_shapes(b, 0, {}):
+        if sh.startswith("FromResidual::from_residual(") or sh == "Option::None{}":
+            ok = sh == "FromResidual::from_residual(break(Try::branch(Option::take(arg1.token))))"
+            if sh == "Option::None{}":
+                from rules.common import has_fact as _hf, opt_fact as _of
+                ok = _hf(b, site[0], {}, *_of("none", "Option::take(arg1.token)")) or _hf(b, site[0], {}, *_of("none", "arg1.token"))
+            ctx.check(ok, rule, fn, "end:only-when-exhausted", "the reverse walk yields nothing only when there is no token left (an unreadable line yields the token without text)", ctx.site(b, *site), detail=sh[:200])
     # forward scan counters
     CH = "try(Iterator::next(var:Chars))"
     RCH = "try(Iterator::next(var:Rev<Chars>))"
